@@ -43,6 +43,11 @@ stream("C17", "Random call programs on Writer and Reader checked against the lif
 stream("C12", "Round trip with a sentinel word after the block for all nine entropy codecs over adversarial lengths and histograms (bit-exact consumption measured with the bit counters).", "differential round trip + consumption counters", "6/C12")
 stream("C13", "Forward/Inverse of each transform with canary-guarded buffers of exactly the advertised / decompressor sizes, decline-leaves-input-intact, data type hints.", "differential round trip with canaries", "6/C13")
 
+add("C15", "proof",
+    "Theorems in coq/Properties/C15.v over the model of GetType/GetName (Model/Names.v) instantiated with the name tables that tools/gotrans regenerates from the switch statements of the current sources: for EVERY string, the type of a name equals the type of its upper-cased spelling (transform chains and entropy names); for EVERY chain of at most 8 known tokens in any letter case with NONE fillers anywhere, name -> type -> name is the canonical chain (induction over the 6-bit packing); the regenerated tables are mutually inverse with 6-bit types; every place where a codec variant is selected from a context string upper-cases it first (regenerated fact), hence selects the same variant for the spelling given to the writer and for the canonical name rebuilt by the reader. Tied to the code by regeneration on every run plus exhaustive dynamic comparison.",
+    "ASCII spellings. Translator (tools/gotrans) trusted for the AST facts, cross-checked dynamically. Known residual: a chain containing both ROLZ and ROLZX selects the ROLZX variant for both stages on both sides (strings.Contains on the whole chain) - consistent and decodable, format-compatible, not repaired.",
+    "Coq proof over a model regenerated from the Go AST + exhaustive differential of name lookups and stream bytes", "5.9, 6/C15")
+
 NOT_YET = {}
 def main():
     props = [json.loads(l)["id"] for l in open(os.path.join(ROOT, "properties.jsonl"))]
